@@ -152,6 +152,7 @@ const (
 	FaultNth             // list accessor failure (AnyResolver.Nth) at element 0 -- AS only
 	FaultValErr          // the resolver returns its normal value AND an error (strategy-equivalence only: what "failed" means here is not stated)
 	FaultBadLeaf         // no resolver error: the resolver returns a value its declared leaf type cannot represent (an Int field, or one element of an [Int] field, answers "notanumber")
+	FaultWrapped         // a group of two errors wrapped with context: fmt.Errorf("ctx: %w", ggql.Errors{e1, e2}) - still one entry per member
 	FaultShared          // every failing call returns the same *ggql.Error instance (an application's sentinel error)
 )
 
